@@ -11,7 +11,7 @@ import threading
 import time
 import zlib
 
-from vlib import core, gen, fixture, wire
+from vlib import core, gen, fixture, wire, yieldinj
 
 PROPERTY = "C05"
 LEVEL = "exploration"
@@ -24,7 +24,7 @@ RULE = ("hostile connections: one hostile item (a mutated message or garbage) se
 ASSUMPTIONS = ["a peer that stalls forever mid-message on the single-threaded multiplex server without a timeout is documented behaviour; hostile clients always close (after <=50 ms)",
                "'still accepts / keeps receiving' = within a 10 s watchdog after the last hostile socket is closed",
                "BaseException-only exceptions (SystemExit ...) raised by methods are outside the statement ('Exception subclasses')"]
-REQUIRED_REACH = ["abandoned_streams_swept", "hostile_connections", "witness_calls_ok", "post_attack_handshake_ok", "accounting_restored", "refused_by_full_pool", "error_replies_seen"]
+REQUIRED_REACH = ["abandoned_streams_swept", "injected_yields", "hostile_connections", "witness_calls_ok", "post_attack_handshake_ok", "accounting_restored", "refused_by_full_pool", "error_replies_seen"]
 SHARD_TIMEOUT = {"quick": 240, "thorough": 3000}
 
 
@@ -431,6 +431,10 @@ def plan(tier, seed):
     for st, pool in (("thread", 40), ("thread", 3), ("multiplex", 40)):
         for ct in (0.0, 0.3):
             cfgs.append({"servertype": st, "pool": pool, "commtimeout": ct})
+    # the same attack with seeded yield injection into the thread server's pool / connection code: hostile connections that are refused at once
+    # make workers finish while new connections are being accepted
+    cfgs.append({"servertype": "thread", "pool": 40, "commtimeout": 0.0, "inject": True})
+    cfgs.append({"servertype": "thread", "pool": 3, "commtimeout": 0.0, "inject": True})
     reps = 1 if tier == "quick" else 6
     n = 420 if tier == "quick" else 0
     return [{"cfg": c, "rep": i, "n_items": n} for c in cfgs for i in range(reps)]
@@ -439,9 +443,14 @@ def plan(tier, seed):
 def run_shard(shard, rec):
     P = fixture.pyro()
     r = gen.rng(rec.seed, "c05", repr(shard))
-    if shard["cfg"]["pool"] > 5:
-        rec.count("refused_by_full_pool")
-    run_config(P, shard["cfg"], rec, r, shard["n_items"])
+    if shard["cfg"].get("inject"):
+        yieldinj.enable(("Pyro5/svr_threads.py",), 0.08, rec.seed * 31 + shard["rep"], max_sleep=0.001)
+    try:
+        run_config(P, shard["cfg"], rec, r, shard["n_items"])
+    finally:
+        if shard["cfg"].get("inject"):
+            n, lines = yieldinj.disable()
+            rec.count("injected_yields", n)
 
 
 def replay(payload, rec):
